@@ -170,11 +170,22 @@ def generality(k, m):
     return bin(~k & ~m & M32).count("1")
 
 
+_HANGS = [0]
+
+
 def call(f):
     """run the implementation; map the outcome to the protocol"""
     from rig.routing_table import MinimisationFailedError
+    from harness import common
     try:
-        return f()
+        # every call of the model terminates (theorems *_total); the tables here are small (a call takes
+        # milliseconds): a call still running after 5 s of CPU time is reported as not having returned
+        # (1 s once that has happened 6 times in this run)
+        with common.cpu_limit(5 if _HANGS[0] < 6 else 1):
+            return f()
+    except common.ImplHang as e:
+        _HANGS[0] += 1
+        return {"exc": "DidNotReturn", "where": str(e)}
     except MinimisationFailedError as e:
         d = {"err": "MinimisationFailed", "target": e.target_length, "final": e.final_length}
         if e.chip is not None:
